@@ -65,6 +65,7 @@ pxgstrf_pruneL(
 	 * pruning occur at the rep-column in irep1's supernode. 
 	 */
 	isupno = supno[irep];
+	SLU_MT_VEV(VE_PRUNE_CHECK, jcol, irep, &supno[irep1]);
 	if ( isupno == supno[irep1] ) continue;	/* Don't prune */
 
 	/*
@@ -72,6 +73,7 @@ pxgstrf_pruneL(
 	 */
 	do_prune = FALSE;
 	if ( isupno != jsupno ) {
+	    SLU_MT_VEV(VE_RACY_READ, jcol, 2, &ispruned[irep]);
 	    if ( ! ispruned[irep] ) {
 		kmin = SINGLETON( isupno ) ? xlsub_end[irep] : xlsub[irep];
 		kmax = xprune[irep] - 1;
@@ -93,6 +95,7 @@ pxgstrf_pruneL(
 		    else { /* kmin below pivrow, and kmax above pivrow: 
 		            * 	interchange the two subscripts
 			    */
+		        SLU_MT_VEV(VE_PRUNE_SWAP, jcol, irep, kmin);
 		        ktemp = lsub[kmin];
 		        lsub[kmin] = lsub[kmax];
 		        lsub[kmax] = ktemp;
@@ -101,6 +104,7 @@ pxgstrf_pruneL(
 		    }
 	        } /* while */
 
+	        SLU_MT_VEV(VE_PRUNE_PUB, jcol, irep, kmin);
 	        xprune[irep] = kmin;	/* Pruning */
 		ispruned[irep] = 1;
 
